@@ -38,7 +38,15 @@ def run_cfg(ctx, p, cfg):
         co = f.call1(CALL_ONCE, "Once::call_once")
         r.require(deep_strip(co.arg(0)) == ("field", ("param", 1), once_f[0]) if once_f else False, "call_once-on-own-once", fn=f, site=co.at,
                   detail="receiver %s" % show(co.arg(0)))
-        r.require(not f.in_loop(co.block) and all(f.dominates(co.block, rb) for rb in f.return_blocks()), "call_once-on-every-path", fn=f, detail="call_once is executed once per trigger() call")
+        # on every path, except behind a positive Once::is_completed() (the decision was taken by an earlier call)
+        cuts_ = set()
+        for blk in f.blocks:
+            if blk["term"]["k"] == "switch" and blk["id"] in f.reachable_blocks():
+                si_ = SwitchInfo(f, blk["id"])
+                d_ = strip(si_.discr)
+                if si_.is_bool and d_[0] == "call" and d_[1] == "std::sync::once::Once::is_completed" and si_.target_of(True) is not None:
+                    cuts_.add((blk["id"], si_.target_of(True)))
+        r.require(not f.in_loop(co.block) and not q.skipping_paths(f, 0, {co.block}, set(f.return_blocks()), cut_edges=cuts_), "call_once-on-every-path", fn=f, detail="call_once is executed once per trigger() call")
         # what the call returns in each of the four situations (this call runs the Once or not; the file has reached min_size or
         # not), read off the code with the closure and any helper followed (rules/oncewalk.py): Ok(true) exactly when both hold
         from rules import oncewalk
@@ -48,13 +56,14 @@ def run_cfg(ctx, p, cfg):
         except oncewalk.Giveup as e:
             raise ShapeUnrecognised("trigger(): %s" % e)
         ctx.extra["c17_table"] = {"claimed=%s,len>=min=%s" % k: str(v[0]) for k, v in tab.items()}
-        for (claimed, big), (res, n_once, raw) in sorted(tab.items()):
+        for (claimed, big), (res, n_once, raw, lo_once) in sorted(tab.items()):
             want = claimed and big
             r.require(res is want, "answer:%s,%s" % ("first-call" if claimed else "later-call", "len>=min_size" if big else "len<min_size"), fn=f,
                       detail="returns Ok(%s)" % str(res).lower(),
                       fail_detail="when this call %s the Once and the file %s min_size, trigger() returns %s; it must return Ok(%s)" % (
                           "runs" if claimed else "does not run", "has reached" if big else "is below", ("Ok(%s)" % str(res).lower()) if res is not None else repr(raw), str(want).lower()))
-            r.require(n_once == 1, "one-once-per-call:%s,%s" % (claimed, big), fn=f, detail="call_once executed %d time(s) on this path" % n_once)
+            # exactly one call_once on the path of the call that runs it; a later call may skip it behind Once::is_completed()
+            r.require(n_once == 1 and (lo_once == 1 or not claimed), "one-once-per-call:%s,%s" % (claimed, big), fn=f, detail="call_once executed %d..%d time(s) on this path" % (lo_once, n_once))
         # Once field is never re-created: aggregates of the ADT only in its constructor(s); no field write
         aggs = sorted({a[0].path for a in p.aggregates(ADT)})
         r.require(aggs == ["append::rolling_file::policy::compound::trigger::onstartup::OnStartUpTrigger::new"], "constructed-only-by-new",
